@@ -50,7 +50,7 @@ CONTEXTS = (
     ("before", [], ["12 = N 1 1"], ("none", "tap")),
     ("between", ["2 = N 0 0"], ["12 = N 1 1"], ("none", "tap", "forced", "both")),
 )
-ORDERS = ("lanes-flags", "flags-lanes", "flags-inside")
+ORDERS = ("lanes-flags", "flags-lanes", "flags-inside", "lanes-descending", "lanes-rotated")
 MAPS = (
     ("const", []),
     ("at+1", ["11 = B 60000"]),
@@ -199,6 +199,13 @@ def run_shard(shard, ctx):
             for fs in fsets:
                 lanes_, flags_ = pat_lines(pat), ["10 = N %d %d" % f for f in FLAGSETS[fs]]
                 for order in ORDERS:
+                    if order in ("lanes-descending", "lanes-rotated"):
+                        # the lane lines of one tick in another order than ascending (each lane keeps ITS length)
+                        if pat[0] == "open" or len(lanes_) < 2 or cname not in ("alone", "between") or fs not in ("none", "both") or (order == "lanes-rotated" and len(lanes_) < 3):
+                            continue
+                        group = (lanes_[::-1] if order == "lanes-descending" else lanes_[1:] + lanes_[:1]) + flags_
+                        _one(ctx, res, sync, mname, cname, fs, order, before, group, after, pat, sus, longest)
+                        continue
                     if order != "lanes-flags" and (not flags_ or pat[0] == "open" or (order == "flags-inside" and len(lanes_) < 2)):
                         continue  # a flag before an open-note line is outside the domain (DESIGN.md 3.1)
                     if order == "lanes-flags":
